@@ -15,6 +15,7 @@ package main
 
 //@ ghost nreal int
 //@ ghost seen int
+//@ ghost nmin int
 
 // minVersion: the empty string is an absolute minimum; otherwise one of the two
 // arguments, and not greater than either in the order of its kind: Go versions
@@ -43,11 +44,16 @@ package main
 //@   at call append#1: assert gcfg.Depth > 0 && arg1[0].Name == gcfg.Counter && arg1[0].Depth == gcfg.Depth && pcfg != nil && pcfg.Name == gcfg.Program && in(gcfg.Program, programs) && programs[gcfg.Program] == pcfg
 //@   at call append#2: assert gcfg.Depth <= 0 && arg1[0].Name == gcfg.Counter && pcfg != nil && pcfg.Name == gcfg.Program && in(gcfg.Program, programs) && programs[gcfg.Program] == pcfg
 //@   at call append#3: assert minVersion == "" || version.Compare(minVersion, arg1[0]) <= 0
+// The smallest minimum among a program's records: every record's version, the empty
+// one (all versions) included, is folded into the program's minimum.
+//@   at call minVersion#1: assert arg0 == minVersions[gcfg.Program] && arg1 == gcfg.Version
+//@   at call minVersion#1: ghost $nmin = $nmin + 1
+//@   loop 2: invariant $nmin - loopentry($nmin) == rangeindex + 1
 //@   loop 2: invariant forall k string :: in(k, programs) ==> programs[k] != nil && programs[k].Name == k && allocated(programs[k])
 //@   loop 3: invariant ucfg != nil && (forall k string :: in(k, programs) ==> programs[k] != nil)
 //@   loop 4: invariant ucfg != nil && p != nil
 //@   loop 5: invariant ucfg != nil && p != nil && 0 <= i && i <= rangeindex+1 && i <= len(versions)
-//@   modifies heap, $nreal, $seen
+//@   modifies heap, $nreal, $seen, $nmin
 
 //@ contract prereleasesForProgram
 //@   modifies nothing
